@@ -108,8 +108,9 @@ WRITES = [
 ]
 
 
-def _mk_write(n, first):
+def _mk_write(n, first, table=None, micro800=False):
     from harness.C02 import expected_image
+    WRITES = table or globals()["WRITES"]
 
     def body(xs, m):
         try:
@@ -117,7 +118,7 @@ def _mk_write(n, first):
             mem = {"D1": list(m[0:4]), "DA": list(m[4:20]), "I1": list(m[20:22])}
             target = scen.std_project(mem=mem)
             old = {s.name: (s, list(s.mem)) for s in target.symbols}
-            d = scen.make_driver(target, tags=TAGS)
+            d = scen.make_driver(target, tags=TAGS, micro800=micro800, rev=12 if micro800 else None)
             idx = [first] + list(xs[1:])
             # a tag may be written by at most one valid request per call (which write wins is not part of the property)
             holders = [WRITES[i][2] for i in idx if WRITES[i][2]]
@@ -151,10 +152,29 @@ def _mk_write(n, first):
                     continue
                 if not expected_image(before, effects.get(name, []))(s.mem):
                     return "memory:" + name
+            if micro800 and any(e[1] == 0x0A for e in target.log):
+                return "multi-service-on-micro800"
             return "ok"
         except Exception as e:
             return "exc:" + type(e).__name__ + ":" + str(e)[:80]
     return body
+
+
+# Micro800 configuration: no multi-service packets, every request (bit writes included) travels alone
+WRITES_M = [
+    ("I1.3", lambda v: True, "I1", lambda v: [("bit", 0, 3, True)]),
+    ("D1.2", lambda v: False, "D1", lambda v: [("bit", 0, 2, False)]),
+    ("S1", lambda v: -5, "S1", lambda v: [("int", 0, 1, True, -5)]),
+    ("NOPE", lambda v: v, None, None),
+    ("DA[1]{2}", lambda v: [v, 7], "DA", lambda v: [("int", 4, 4, True, v), ("int", 8, 4, True, 7)]),
+]
+for n in (2, 3):
+    for first in range(len(WRITES_M)):
+        REG.add(f"write-micro800/n{n}/first{first}", vec_fn(n, _mk_write(n, first, WRITES_M, True), extra=(("m", bytes),)),
+                pre=vec_pre(n, lambda xs, m: len(m) == 22 and R.in_domain(xs[0], 4, True) and all(0 <= x < len(WRITES_M) for x in xs[1:]), extra=(("m", bytes),)),
+                post=lambda r, **kw: r in ("ok", "skip"),
+                tier="quick" if n <= 2 else "thorough", timeout=600 if n >= 3 else 240, weight=n, funcs=F + ["logix_driver._write_build_single_request"],
+                desc=f"Micro800 (no multi-service packets): {n} write requests, first = {WRITES_M[first][0]!r}, the others symbolic choices over {len(WRITES_M)} kinds (two bit writes, a value write, an unknown tag, an array slice)")
 
 
 for n in (1, 2, 3):
